@@ -356,8 +356,8 @@ func c08Server(seed int64, rounds int) {
 	// once - as somebody's previous value or as the final value: no value may be handed to two
 	// clients and none may vanish.
 	for round := 0; round < rounds/4+1 && len(sum.Failures) == 0; round++ {
-		clients := 2 + round%5
-		per := 40
+		clients := 3 + round%5
+		per := 150
 		key := fmt.Sprintf("xchg%d", round)
 		startX := make(chan struct{})
 		sum.Cases++
@@ -435,37 +435,39 @@ func c08Server(seed int64, rounds int) {
 		var torn atomic.Int64
 		var tornMsg atomic.Value
 		var wg sync.WaitGroup
-		wg.Add(1)
-		go func() {
-			defer wg.Done()
-			cl, err := hx.Dial(srv.Addr)
-			if err != nil {
-				return
-			}
-			defer cl.Close()
-			for {
-				select {
-				case <-stop:
+		for rd := 0; rd < 3; rd++ {
+			wg.Add(1)
+			go func() {
+				defer wg.Done()
+				cl, err := hx.Dial(srv.Addr)
+				if err != nil {
 					return
-				default:
 				}
-				cl.Do("MULTI")
-				cl.Do("GET", key)
-				cl.Do("TTL", key)
-				v, err := cl.Do("EXEC")
-				if err != nil || v.Kind != '*' || len(v.Arr) != 2 {
-					continue
+				defer cl.Close()
+				for {
+					select {
+					case <-stop:
+						return
+					default:
+					}
+					cl.Do("MULTI")
+					cl.Do("GET", key)
+					cl.Do("TTL", key)
+					v, err := cl.Do("EXEC")
+					if err != nil || v.Kind != '*' || len(v.Arr) != 2 {
+						continue
+					}
+					if !v.Arr[0].Null && v.Arr[1].Kind == ':' && v.Arr[1].Int < 0 {
+						torn.Add(1)
+						tornMsg.Store(fmt.Sprintf("value %q with TTL %d", v.Arr[0].Str, v.Arr[1].Int))
+					}
 				}
-				if !v.Arr[0].Null && v.Arr[1].Kind == ':' && v.Arr[1].Int < 0 {
-					torn.Add(1)
-					tornMsg.Store(fmt.Sprintf("value %q with TTL %d", v.Arr[0].Str, v.Arr[1].Int))
-				}
-			}
-		}()
+			}()
+		}
 		wcl, err := hx.Dial(srv.Addr)
 		if err == nil {
 			at := time.Now().Add(48 * time.Hour)
-			for i := 0; i < 300; i++ {
+			for i := 0; i < 1500; i++ {
 				val := fmt.Sprintf("v%d", i)
 				switch i % 4 {
 				case 0:
